@@ -1456,3 +1456,193 @@ func init() {
 		},
 	})
 }
+
+// ---------------------------------------------------------------------------------------
+// cli-selector-overlap: every -r root is a FRESH conversion of the decoded document. With two
+// selectors whose results overlap in a container of the same document (the same selector twice,
+// `$.items` and `$`, `$.a` and `$.a.b`) what the rules change under the first root must not be
+// visible under the second one -- neither in what is printed nor in what -o writes. So, for a
+// program that keeps no state between roots, `-r S1 -r S2` prints what `-r S1` prints followed
+// by what `-r S2` prints, and -o writes what `-r S2` alone writes (as BEGINFILE { $ = S2 } does).
+// ---------------------------------------------------------------------------------------
+
+var c14OverlapProgs = []c14Prog{
+	{text: `{ $.qty *= 10; print $.name, $.qty }`},
+	{text: "$ is object && $.qty is number { $.qty *= 10 }\n{ print \"v\", $ }"},
+	{text: "$ is array { $.push(\"+\") }\n$ is object { $.n = $.n + 1 }\n{ print \"v\", $ }"},
+	{text: "$ is object { $.seen = [$.seen] }\n{ print \"v\", $ }\nENDFILE { print \"E\", $ }", fileDollar: true},
+	{text: "BEGINFILE { print \"B\", $ }\n$ is object { $.n += 1; $.n += 1 }\nENDFILE { print \"E\", $ }", fileDollar: true},
+	{text: `$.name { $.qty = 0 }`},
+	{text: `$ is object { $.k = "v"; $.n += 1 }`},
+	{text: "BEGINFILE { if ($ is object) { $.visited += 1 }\n print \"B\", $ }", fileDollar: true},
+	{text: "$ is object && $.sub is object { $.sub.n *= 2 }\n$ is object && $.b is object { $.b.l.push($.b.n); $.b.n -= 1 }\n{ print \"v\", $ }"},
+	{text: "$ is number { $ += 100 }\n$ is array { $[0] = [$[0]] }\nENDFILE { print \"E\", $ }", fileDollar: true},
+	{text: "ENDFILE { if ($ is object) { $.done = [$.done, 1] }\n if ($ is array) { $.push(0) }\n print \"E\", $ }", fileDollar: true},
+	{text: `{ print "v", $ }`},
+}
+
+type c14OverlapDoc struct {
+	text string
+	sels [][]string // overlapping selector lists
+	pool []string   // more selectors into the same document
+}
+
+func c14OverlapDocs(r *rand.Rand) c14OverlapDoc {
+	q1, q2, n := 1+r.Intn(9), 1+r.Intn(9), r.Intn(5)
+	if chance(r, 0.6) {
+		return c14OverlapDoc{
+			text: fmt.Sprintf(`{"items": [{"name": "x", "qty": %d}, {"name": "y", "qty": %d}], "a": {"b": {"n": %d, "l": [1]}, "n": 5}, "list": [[1], [2, 3]], "n": %d}`, q1, q2, n, n+1),
+			sels: [][]string{{"$.items", "$.items"}, {"$.items", "$"}, {"$", "$.items"}, {"$.a", "$.a.b"}, {"$.a.b", "$.a"}, {"$", "$"}, {"$.list", "$.list[0]"}, {"$.list[1]", "$.list"},
+				{"[$.items[0]]", "$.items"}, {"{w: $.a}", "$.a"}, {"$.items[0]", "$.items"}, {"$.a.b.l", "$.a.b"}, {"[$.a, $.a]", "$.a"}, {"$.a", "$"}, {"$.items[1]", "$.items[1]"}},
+			pool: []string{"$", "$.items", "$.a", "$.a.b", "$.list", "$.items[0]", "$.n"},
+		}
+	}
+	return c14OverlapDoc{
+		text: fmt.Sprintf(`[{"name": "p", "qty": %d, "n": %d}, {"name": "q", "qty": %d, "sub": {"n": 2}}]`, q1, n, q2),
+		sels: [][]string{{"$", "$"}, {"$[0]", "$"}, {"$", "$[1].sub"}, {"[$[0], $[0]]", "$[0]"}, {"$[1]", "$[1].sub"}, {"$[1].sub", "$[1]"}, {"{first: $[0]}", "$"}, {"$[0]", "$[0]"}},
+		pool: []string{"$", "$[0]", "$[1]", "$[1].sub", "$[0].qty"},
+	}
+}
+
+func c14SelectorOverlap(r *rand.Rand, n int, emit func(Case)) {
+	for i := 0; i < n; i++ {
+		d := c14OverlapDocs(r)
+		sels := append([]string{}, pick(r, d.sels)...)
+		switch r.Intn(6) {
+		case 0:
+			sels = append(sels, pick(r, d.pool)) // a third selector
+		case 1:
+			sels = append([]string{pick(r, d.pool)}, sels...)
+		}
+		prog := c14OverlapProgs[i%len(c14OverlapProgs)]
+		oMode := pick(r, []string{"", "-", "-", "out.json", "out.json"})
+		doc := d.text
+		single := true
+		if chance(r, 0.25) {
+			doc += pick(r, []string{"\n", " "}) + c14OverlapDocs(r).text
+			single = false
+		}
+		useStdin := chance(r, 0.4)
+		name := "in.json"
+		var disk []CliFile
+		var names []string
+		lib := []File{{Name: "<stdin>", Data: []byte(doc)}}
+		var stdin []byte
+		if useStdin {
+			stdin = []byte(doc)
+		} else {
+			disk = []CliFile{{Name: name, Data: []byte(doc)}}
+			names = []string{name}
+			lib[0].Name = name
+		}
+		ofile := ""
+		if oMode != "" && oMode != "-" {
+			ofile = oMode
+		}
+		sc := &c14Scenario{prog: prog}
+		g := fmt.Sprintf("overlap-%d", i)
+		meta := func(argv []string, what string) map[string]string {
+			return metaProg(prog.text, "argv", strings.Join(argv, " ␣ "), "selectors", strings.Join(sels, " ␣ "), "variant", what, "input", doc, "-o", oMode)
+		}
+		// what each selector prints and leaves on its own (library runs inside the generator; one
+		// selector per run)
+		expOut, expJSON, expOK := "", "", single
+		if single {
+			for _, s := range sels {
+				one := c14InProc(prog.text, []string{s}, lib, true)
+				expOut += string(one.Bytes("out"))
+				if one["class"] != "ok" || one["json"] == "ERR" {
+					expOK = false
+					break
+				}
+				expJSON = string(one.Bytes("json"))
+			}
+		}
+		argv := sc.argv(r, prog.text, sels, oMode, "", names)
+		emit(Case{ID: g + "/both", Req: CliReq(argv, stdin, useStdin, disk, ofile), Fields: c14CliFields, Group: g,
+			Meta: meta(argv, "binary, all selectors (first member of the group)"), NonTrivial: c14NT,
+			Oracle: func(i Resp) string {
+				if w := c14Basic(i); w != "" || i["exit"] == "" {
+					return w
+				}
+				if !expOK {
+					if single && !strings.HasPrefix(string(i.Bytes("out")), expOut) {
+						return fmt.Sprintf("stdout %q does not start with what the selectors print one at a time up to the failure: %q", i.Bytes("out"), expOut)
+					}
+					return ""
+				}
+				if i["exit"] != "0" {
+					return "every selector alone succeeds, together the binary exits with " + i["exit"] + ": " + short(string(i.Bytes("stderr")))
+				}
+				want := expOut
+				if oMode == "-" {
+					want += expJSON
+				}
+				if got := string(i.Bytes("out")); got != want {
+					return fmt.Sprintf("stdout %q; the selectors one at a time (each a fresh conversion of the document) give %q", got, want)
+				}
+				if ofile != "" && string(i.Bytes("ofile")) != expJSON {
+					return fmt.Sprintf("-o wrote %q; the last selector alone leaves %q", i.Bytes("ofile"), expJSON)
+				}
+				return ""
+			}})
+		emit(Case{ID: g + "/lib", Req: RunReq(prog.text, sels, lib, oMode != ""), Fields: []string{"class", "out", "json"}, Group: g,
+			Meta:       meta(nil, "library run with the same selectors"),
+			GroupCheck: func(first, self Resp) string { return c14CliVsLib(first, self, oMode, 1) }})
+		if !single {
+			continue
+		}
+		// the binary with the first selector alone (no -o): a prefix; with the last selector alone:
+		// a suffix, and the same -o file
+		first, last := sels[0], sels[len(sels)-1]
+		argvF := sc.argv(r, prog.text, []string{first}, "", "", names)
+		emit(Case{ID: g + "/first-alone", Req: CliReq(argvF, stdin, useStdin, disk, ""), Fields: c14CliFields, Group: g,
+			Meta: meta(argvF, "binary, the first selector alone, no -o"), Oracle: c14Basic, NonTrivial: c14NT,
+			GroupCheck: func(all, self Resp) string {
+				if all["exit"] == "" || self["exit"] == "" {
+					return ""
+				}
+				if !strings.HasPrefix(string(all.Bytes("out")), string(self.Bytes("out"))) {
+					return fmt.Sprintf("with all selectors stdout is %q: it does not start with what the first selector alone prints, %q", all.Bytes("out"), self.Bytes("out"))
+				}
+				return ""
+			}})
+		lastProg, lastSels, what := prog.text, []string{last}, "binary, the last selector alone"
+		if !prog.fileDollar && c14InProc("{ }", []string{last}, lib, false)["class"] == "ok" && chance(r, 0.5) {
+			lastProg, lastSels, what = "BEGINFILE { $ = "+last+" }\n"+prog.text, nil, "binary, BEGINFILE { $ = E } for the last selector instead of -r"
+		}
+		argvL := sc.argv(r, lastProg, lastSels, oMode, "", names)
+		emit(Case{ID: g + "/last-alone", Req: CliReq(argvL, stdin, useStdin, disk, ofile), Fields: c14CliFields, Group: g,
+			Meta: meta(argvL, what), Oracle: c14Basic, NonTrivial: c14NT,
+			GroupCheck: func(all, self Resp) string {
+				if all["exit"] == "" || self["exit"] == "" || !expOK {
+					return ""
+				}
+				if all["exit"] != self["exit"] {
+					return fmt.Sprintf("exit status %s with all selectors, %s with the last one alone", all["exit"], self["exit"])
+				}
+				if !strings.HasSuffix(string(all.Bytes("out")), string(self.Bytes("out"))) {
+					return fmt.Sprintf("with all selectors stdout is %q: it does not end with what the last selector alone gives, %q", all.Bytes("out"), self.Bytes("out"))
+				}
+				if all["ofile"] != self["ofile"] || all["ofexists"] != self["ofexists"] {
+					return fmt.Sprintf("-o wrote %q with all selectors, %q with the last one alone", all.Bytes("ofile"), self.Bytes("ofile"))
+				}
+				return ""
+			}})
+	}
+}
+
+func init() {
+	register(Family{
+		Name: "cli-selector-overlap", Prop: "C14",
+		Rule: "the real binary with two (sometimes three) -r selectors whose results OVERLAP in a container of the same document — the same selector twice, $.items and $, $.a and $.a.b, [$.items[0]] and $.items, ... — under programs that modify $ non-idempotently ($.qty *= 10, $.n += 1 twice, push, wrapping a member in an array, in pattern, BEGINFILE and ENDFILE rules), with -o absent / - / FILE, stdin or a named file, one or two documents; compared with the model of the wrapper; one Group per scenario: library run of the same request (tie: exit, stdout, -o content = json), and for one document the binary with the first selector alone (its stdout is a prefix) and with the last selector alone — as -r E or as BEGINFILE { $ = E } — (its stdout is a suffix, the -o file identical); oracle: stdout = what library runs with ONE selector each print, concatenated, and -o = what the last one leaves (every root is a fresh conversion)",
+		Gen: func(r *rand.Rand, tier string, emit func(Case)) {
+			if os.Getenv("JQAWK_BIN") == "" {
+				emit(Case{ID: "no-binary", Req: "cli - - - -", ImplOnly: true, Oracle: c14Basic,
+					Meta: map[string]string{"problem": "env JQAWK_BIN is not set; the C14 families run the real binary"}})
+				return
+			}
+			c14SelectorOverlap(r, tierN(tier, 240, 5000), emit)
+		},
+	})
+}
